@@ -45,6 +45,13 @@ def dnf_source(name, n, table):
     return f"def {name}({arg_decl(n)}) -> bool:\n\treturn {body}"
 
 
+def tup_source(name, n, table):
+    """the same sum of products over a TUPLE-typed argument (the search register is then decoded to a tuple)"""
+    if n == 1:
+        return dnf_source(name, n, table)
+    return dnf_source(name, n, table).replace(arg_decl(n), f"a: Tuple[{', '.join(['bool'] * n)}]")
+
+
 def cmp_source(name, n, table):
     rows = sorted(table)
     if n == 1:
@@ -114,7 +121,7 @@ def job_dj(a):
     from qlasskit.algorithms import DeutschJozsa
     t0 = time.time()
     table = frozenset(table)
-    src = {"dnf": dnf_source, "cmp": cmp_source, "anf": xor_source}[form]("f", n, table)
+    src = {"dnf": dnf_source, "cmp": cmp_source, "anf": xor_source, "tup": tup_source}[form]("f", n, table)
     kind = "constant" if len(table) in (0, 1 << n) else "balanced"
     name = f"C16.DeutschJozsa.{kind}[{n} bits,{form},true rows={sorted(table)}]"
     base = dict(strength="bounded", backend="exact-amplitudes", program=src)
@@ -213,7 +220,9 @@ def two_to_one(n, s, variant):
     else:
         lab = {r: ((i * 5 + 3) % len(reps)) for i, r in enumerate(reps)} if len(reps) % 5 else {r: i ^ 1 if (i ^ 1) < len(reps) else i for i, r in enumerate(reps)}
     vals = [lab[min(x, x ^ s)] for x in range(1 << n)]
-    src = f"def f(a: Qint[{n}]) -> Qint[{n}]:\n\tc = {vals}\n\treturn c[a]"
+    # variant 2 returns a WIDER type than the argument: whatever is decoded must be in the ARGUMENT's type
+    rw = n if variant != 2 else {1: 2, 2: 3, 3: 4, 4: 5}.get(n, n)
+    src = f"def f(a: Qint[{n}]) -> Qint[{rw}]:\n\tc = {vals}\n\treturn c[a]"
     return src, vals
 
 
@@ -241,6 +250,20 @@ def job_simon(a):
     out = []
     sn = name.replace(".period[", ".structure[")
     out.append(res(sn, PROVED, **base) if ok else res(sn, REFUTED, replayed=True, replay=dict(program=src, **det), **base))
+    # decode_output: a reading of the n search qubits is reported as a value of the ARGUMENT's type (Qint[n]: the integer the string spells)
+    dn = name.replace(".period[", ".decode_output[")
+    wrong = []
+    for y in range(1 << n):
+        reading = format(y, f"0{n}b")
+        try:
+            dec = alg.decode_output(reading)
+        except Exception as ex:  # noqa
+            dec = f"raises {type(ex).__name__}: {ex}"[:80]
+        if not (isinstance(dec, int) and not isinstance(dec, bool) and dec == y):
+            wrong.append((reading, repr(dec)))
+    out.append(res(dn, PROVED, readings=1 << n, **base) if not wrong else
+               res(dn, REFUTED, replayed=True, replay=dict(program=src, call="Simon(qf).decode_output(reading)", observed=wrong[:4],
+                                                          expected="the integer the reading spells, in the argument type Qint[n]"), **base))
     if not clean:
         out.append(res(name, PROVED, nontrivial=False, note=f"black box not clean ({why}): attributed", **base))
         return out
@@ -278,7 +301,7 @@ def run(tier, only=None):
     for n in (1, 2, 3):
         tables = [frozenset(), frozenset(range(1 << n))] + balanced_tables(n)
         for t in tables:
-            for form in ("dnf", "cmp") + (("anf",) if tier == "thorough" or n < 3 else ()):
+            for form in ("dnf", "cmp") + (("anf",) if tier == "thorough" or n < 3 else ()) + (("tup",) if n == 2 or (n == 3 and (tier == "thorough" or len(t) in (0, 8) or min(t, default=0) == 0)) else ()):
                 jobs.append((job_dj, (n, sorted(t), form)))
     bal4 = [frozenset(r.sample(range(16), 8)) for _ in range(6 if tier == "quick" else 40)]
     for t in [frozenset(), frozenset(range(16))] + bal4:
